@@ -54,12 +54,16 @@ Fixpoint text_of (tbl : list (list N * option (list string))) (b : list N) : opt
    the harness's view of the key files and the crypto/rsa truth table: the key "bytes" are the key's name *)
 Definition kind_of (tbl : list (string * key_kind)) (name : string) : key_kind :=
   match assoc_str name tbl with Some k => k | None => KNoPem end.
-Definition verify_staged (kinds : list (string * key_kind)) (tbl : list (string * halg * list N))
-    (key : string) (a : halg) (d : unit) (sig : list N) : bool :=
-  rsa_verify_digest string string string unit (fun _ _ => true)
-    (fun name => match kind_of kinds name with KNoPem => None | _ => Some name end)
+Definition verify_staged_with (f : (string -> option string) -> (string -> option (pubkey string)) -> (string -> halg -> unit -> list N -> bool) ->
+                                   string -> halg -> unit -> list N -> bool)
+    (kinds : list (string * key_kind)) (tbl : list (string * halg * list N)) : string -> halg -> unit -> list N -> bool :=
+  f (fun name => match kind_of kinds name with KNoPem => None | _ => Some name end)
     (fun name => match kind_of kinds name with KRsa => Some (PubRSA name) | KNotRsa => Some PubOther | _ => None end)
-    (fun k a' _ sg => verify_of tbl k a' tt sg) key a d sig.
+    (fun k a' _ sg => verify_of tbl k a' tt sg).
+(* the model: the function as the source has it *)
+Definition verify_staged := verify_staged_with (rsa_verify_digest string string string unit (fun _ _ => true)).
+(* the validators: what "verifies under the configured key" means, independent of the source *)
+Definition verify_meant := verify_staged_with (rsa_verify_digest_meaning string string string unit (fun _ _ => true)).
 
 Definition check_parse (c : parse_case) : list string :=
   let raw := fun (_ : list member) => tt in
@@ -71,7 +75,7 @@ Definition check_parse (c : parse_case) : list string :=
   tag_if (req && negb (o_should_check c)) "viol:verification-skipped-without-optout" ++
   tag_if (negb req && o_should_check c) "mismatch:verifies-although-opted-out" ++
   tag_if (negb (Bool.eqb chk (o_should_check c))) "mismatch:should-check" ++
-  (if req then holds_tags unit unit raw hash verify pt (p_keys c) (p_members c) (option_map fst (o_result c)) else []) ++
+  (if req then holds_tags unit unit raw hash (verify_meant (p_keykinds c) (p_verify c)) pt (p_keys c) (p_members c) (option_map fst (o_result c)) else []) ++
   match parse_repository_index unit unit raw hash verify pt chk (p_keys c) (p_members c), o_result c with
   | POk i, Some (pk, d) =>
       tag_if (negb (list_eqb String.eqb (i_pkgs i) pk)) "mismatch:packages" ++
